@@ -8,6 +8,7 @@ import hmssim  # noqa: F401
 import numpy as np
 
 import pyhms
+import pyhms.demes.ea_deme
 from pyhms.config import (
     BaseLevelConfig,
     CMALevelConfig,
@@ -103,6 +104,14 @@ class CustomDeme(AbstractDeme):
         return population
 
 
+class CustomEAConfig(EALevelConfig):
+    """A user's config class derived from a built-in one, registered with its own deme class."""
+
+
+class CustomEADeme(pyhms.demes.ea_deme.EADeme):
+    pass
+
+
 class CallableObjective:
     """Objective given as a callable object (C19: pickled by value through its state)."""
 
@@ -126,8 +135,15 @@ def _norm(v):
     return v
 
 
-def build_user_objective(plan):
-    spec = plan["objective"]
+def objective_spec(plan, stack_index=0):
+    so = plan.get("stack_objectives")
+    if so and stack_index < len(so) and so[stack_index]:
+        return so[stack_index]
+    return plan["objective"]
+
+
+def build_user_objective(plan, stack_index=0):
+    spec = objective_spec(plan, stack_index)
     form = plan.get("objective_form", "closure")
     pure = objectives.make_pure(spec)
     if form == "closure":
@@ -162,7 +178,19 @@ def build_stack(plan, stack_spec, fun, bounds):
     return p, layers
 
 
-def build_lsc(spec):
+SHARED_LSCS = {}
+
+
+def build_lsc(spec, share_key=None):
+    """``share_key``: the LSC *object* is shared by several trees ("build the level configs once, loop over seeds")."""
+    if share_key is not None:
+        if share_key not in SHARED_LSCS:
+            SHARED_LSCS[share_key] = _build_lsc(spec)
+        return SHARED_LSCS[share_key]
+    return _build_lsc(spec)
+
+
+def _build_lsc(spec):
     k = spec["kind"]
     if k == "metaepoch_limit":
         return MetaepochLimit(int(spec["limit"]))
@@ -179,8 +207,8 @@ def build_lsc(spec):
     raise ValueError(k)
 
 
-def build_level(spec, problem):
-    lsc = build_lsc(spec["lsc"])
+def build_level(spec, problem, share_key=None):
+    lsc = build_lsc(spec["lsc"], share_key)
     e = spec["engine"]
     if e == "ea":
         kw = {}
@@ -188,7 +216,8 @@ def build_level(spec, problem):
                      "election_group_size"):
             if spec.get(name) is not None:
                 kw[name] = spec[name]
-        return EALevelConfig(
+        cfg_cls = CustomEAConfig if spec.get("custom_derived") else EALevelConfig
+        return cfg_cls(
             pop_size=int(spec["pop_size"]),
             problem=problem,
             lsc=lsc,
@@ -327,22 +356,28 @@ def build_config(plan):
     bounds = build_bounds(plan)
     tops = []
     stack_layers = []
-    for ss in plan["stacks"]:
-        fun = build_user_objective(plan)
+    for si, ss in enumerate(plan["stacks"]):
+        fun = build_user_objective(plan, si)
         top, layers = build_stack(plan, ss, fun, bounds)
         tops.append(top)
         stack_layers.append(layers)
     levels = []
     for li, ls in enumerate(plan["levels"]):
-        levels.append(build_level(ls, tops[plan["level_stack"][li]]))
+        levels.append(build_level(ls, tops[plan["level_stack"][li]],
+                                  (plan["share_key"], li) if plan.get("share_key") and plan.get("share_lscs") else None))
     gsc = build_gsc(plan["gsc"], stack_layers)
     sprout = build_sprout(plan["sprout"], plan.get("share_key"))
     options = {}
     for k, v in plan.get("options", {}).items():
         options[k] = v
     kw = {}
+    reg = {}
     if any(ls["engine"] == "custom" for ls in plan["levels"]):
-        kw["config_class_to_deme_class"] = {CustomLevelConfig: CustomDeme}
+        reg[CustomLevelConfig] = CustomDeme
+    if any(ls.get("custom_derived") for ls in plan["levels"]):
+        reg[CustomEAConfig] = CustomEADeme
+    if reg:
+        kw["config_class_to_deme_class"] = reg
     cfg = TreeConfig(levels, gsc, sprout, options=options, **kw)
     return cfg
 
